@@ -108,6 +108,8 @@ def judge(prop, nthreads, ncalls, hist, sections, r):
         return [("crash", "the process died with signal %d under this schedule" % r["crashed"])], None
     if "hang" in r:
         return [("deadlock", "thread %d never reached its next synchronisation point (step %s of the schedule)" % (r["thread"], r["hang"]))], None
+    if "unschedulable" in r:
+        return [], "schedule not executable cooperatively: thread %d blocked outside a scheduling point at step %s but the process finished when released" % (r["thread"], r["unschedulable"])
     if "final" not in r:
         return [("no-result", "schedule did not complete: %r" % r)], None
     drift = r["first_drift"] if r.get("drift") else None
